@@ -58,7 +58,7 @@ def validate(w, obs, label):
     for o in obs:
         s = {k: v for k, v in o.items() if k not in ("scn", "class", "blen")}
         slim.append(s)
-    write_ndjson(tf, slim)
+    write_ndjson(tf, slim, clamp=True)
     r = w.tlc("DeltaTrace", TRACE_CFG, env={"VERIF_TRACE": tf}, label="DeltaTrace-" + label, timeout=3000)
     if not r["completed"]:
         raise Broken("trace validation did not complete: " + r["out"][-3000:])
